@@ -86,3 +86,15 @@ Theorem C01_reimport_of_canonical_chord : forall D notes, 2 <= List.length notes
   kern_recognise (str (print_chord notes)) = KTok (TChord (str (print_chord notes)) (map (chord_note D) notes)).
 Proof. exact recognise_print_chord. Qed.
 Print Assumptions C01_reimport_of_canonical_chord.
+
+(* ... and the fixed point itself for chords: the kern export of the chord token read from the canonical chord text is
+   that text again - export o import o export = export for chords of any number of notes (each note in canonical order,
+   all notes carrying the chord's signifiers) *)
+From KV Require Import ChordFixedProofs.
+Theorem C01_chord_fixed_point : forall D notes, 2 <= List.length notes -> chord_ok D notes -> Forall canonical_order notes ->
+  match kern_recognise (str (print_chord notes)) with
+  | KTok t => kern_tokenize all_cats t = Ok (str (print_chord notes))
+  | KOut => False
+  end.
+Proof. exact chord_export_fixed_point. Qed.
+Print Assumptions C01_chord_fixed_point.
